@@ -15,7 +15,7 @@ func TestVerifReplayC08(t *testing.T) {
 	fn := os.Getenv("VERIF_REPLAY_FUNC")
 	found := 0
 	report := func(format string, a ...any) {
-		if found < 5 {
+		if found < 40 {
 			fmt.Printf("VERIF-REPLAY FAILING-INPUT "+format+"\n", a...)
 		}
 		found++
